@@ -36,7 +36,7 @@ m = {
     "setup_cmd": "./setup.sh",
     "hooks": {
         "guard": "overlay (go build -overlay; no hook source lives in /repo)",
-        "enable": "checks build /repo's working tree with `go test -c -overlay /verif/.work/overlay-{access,instr}.json`: access adds /verif/harness/inject/zz_verif_access.go.in (read-only accessors) to package gorums; instr additionally replaces the 11 runtime files by copies with `verifPoint(N); ` before every statement (harness/cmd/vinstr, regenerated from the working tree on every check) and adds zz_verif_sched.go.in; without the -overlay flag nothing of it exists",
+        "enable": "checks build /repo's working tree with `go test -c -overlay /verif/.work/overlay-{access,instr}.json`: access adds /verif/harness/inject/zz_verif_access.go.in (read-only accessors, a bare-node constructor and a tear-down helper that closes nodes Manager.Close did not see) to package gorums; instr additionally replaces the 11 runtime files by copies with `verifPoint(N); ` before every statement (harness/cmd/vinstr, regenerated from the working tree on every check) and adds zz_verif_sched.go.in; without the -overlay flag nothing of it exists",
         "baseline_off_cmd": "cd /repo && go test -vet=off -count=1 -timeout 25m ./...",
         "source_commits": [],
         "add_only": True,
